@@ -207,7 +207,7 @@ func (f *Frame) scanNode(n ast.Node, t *Targets, seen map[*ast.FuncDecl]bool, de
 			}
 			if len(callees) > 0 {
 				for _, cfi := range callees {
-					f.scanCallee(cfi, nil, t, seen, depth+1)
+					f.scanCallee(cfi, n, t, seen, depth)
 				}
 				return true
 			}
@@ -615,12 +615,26 @@ func (f *Frame) runLoop(st *State, s ast.Stmt, label string, bodyNodes []ast.Nod
 			result = append(result, o)
 		}
 	}
-	if back := vc.merge(backs); back != nil {
+	var backStates []*State
+	if f.split {
+		for _, b := range backs {
+			if b != nil && b.pc.S != "false" {
+				backStates = append(backStates, b) // one preservation check per path back to the loop head
+			}
+		}
+	} else if back := vc.merge(backs); back != nil {
+		backStates = []*State{back}
+	}
+	for bi, back := range backStates {
 		post(back)
 		if ls != nil {
 			invs := f.loopInvariants(back, ls, s.Pos(), special(back))
+			suffix := ""
+			if len(backStates) > 1 {
+				suffix = fmt.Sprintf("#%d", bi+1)
+			}
 			for i, c := range ls.Invs {
-				vc.oblige(back, lname+".preserved."+c.Label, "inv.preserved", invs[i], s.Pos(), vc.srcText(ls.Pkg, c.Expr))
+				vc.obligeOnly(back, lname+".preserved."+c.Label+suffix, "inv.preserved", invs[i], s.Pos(), vc.srcText(ls.Pkg, c.Expr))
 			}
 		}
 	}
